@@ -622,7 +622,7 @@ func execC13(sc c13Scenario) core.Outcome {
 		uri = "http://stream.test/index.m3u8"
 	}
 	cpu0, t0 := cpuTime(), time.Now()
-	r := cli.RunClient(cli.RunOpts{URI: uri, Server: srv, CloseAtRequest: -1, MaxWait: 13 * time.Second, SkipLeakCheck: false})
+	r := cli.RunClient(cli.RunOpts{URI: uri, Server: srv, CloseAtRequest: -1, MaxWait: 45 * time.Second, MaxIdle: 13 * time.Second, SkipLeakCheck: false})
 	cpu, wall := cpuTime()-cpu0, time.Since(t0)
 	if r.StartErr != nil {
 		return o // rejected at Start: clean
@@ -636,11 +636,17 @@ func execC13(sc c13Scenario) core.Outcome {
 	if strings.HasPrefix(fmt.Sprint(r.WaitErr), "HARNESS:") {
 		return fail(o, "the client neither ends nor honours Close; requests %v", reqURLs(r.Requests))
 	}
+	if !r.WaitReturned && !r.Idle {
+		// still delivering or requesting after 45 s: mutated timestamps can make the client pace
+		// every unit for up to 10 s (beyond that it gives up by design), which is slow, not wedged
+		o.Skip = true
+		o.Labels = append(o.Labels, "still-active-after-45s")
+		return o
+	}
 	if !r.WaitReturned {
-		// every playlist of the scenario either ends (ENDLIST) or stops evolving and the media lasts
-		// well under a second; absurd timestamps can make the client pace a unit for up to 10 s
-		// (beyond that it gives up by design): a client that is still silent after 13 s is wedged
-		return fail(o, "the client neither finished nor failed within 13 s (it did end after Close: %v): wedged; requests %v", r.WaitErr, reqURLs(r.Requests))
+		// every playlist of the scenario either ends (ENDLIST) or stops evolving; the client never
+		// paces a unit for more than 10 s: 13 s without any request or delivered unit is a wedge
+		return fail(o, "the client neither finished, failed, requested nor delivered anything for 13 s (it did end after Close: %v): wedged; requests %v", r.WaitErr, reqURLs(r.Requests))
 	}
 	for _, ti := range r.Tracks {
 		if ti.Codec == "nil" {
@@ -670,7 +676,7 @@ var propC13 = core.Prop[c13Scenario]{
 	ID:       "C13",
 	CrashLog: true,
 	Rule: "a C10 stream with 0-3 mutations applied before serving (optionally served as a Low-Latency history whose reloads lose SERVER-CONTROL / PART-INF or name a bad preload hint; multivariant playlists with renditions without URI, unknown groups, no CODECS, two variants; extra unsupported tracks with or without data in the segments): arbitrary / hostile bytes as primary or media playlist, playlists truncated, flipped, emptied, without segments, with huge numbers, bad URIs or a MAP without URI; init segments truncated at box boundaries, flipped, replaced by garbage, with >10 tracks, duplicate / shifted ids, no tracks, only unsupported codecs, or extra tracks of codecs gohlslib has no type for (AC-3, MJPEG, LPCM, MPEG-4/MPEG-1 video, MPEG-1 audio); fMP4 segments with zero / huge durations, huge base times, no leading-track data, unknown / duplicate / swapped track ids, empty truns, truncation; MPEG-TS segments truncated at / inside packets, without PAT/PMT, without the leading PID; " +
-		"oracle: the test process survives (a panic in a client goroutine kills it: the scenario is logged before execution), Wait() yields within 13 s (all playlists end or stop evolving, the media lasts well under a second and the client never paces a unit for more than 10 s; otherwise it is wedged and must at least honour Close), <= 400 requests and < 80% CPU, no track without codec exposed, no goroutine left; non-trivial = the client got past its first request",
+		"oracle: the test process survives (a panic in a client goroutine kills it: the scenario is logged before execution), the client is never silent for 13 s - no request, no delivered unit, no value from Wait() - (all playlists end or stop evolving and the client never paces a unit for more than 10 s; otherwise it is wedged and must at least honour Close; runs still active after 45 s are skipped), <= 400 requests and < 80% CPU, no track without codec exposed, no goroutine left; non-trivial = the client got past its first request",
 	Draw: drawC13,
 	Exec: execC13,
 }
